@@ -190,6 +190,24 @@ CLAIMED = {
              'split_with_polyline with a polyline vertex on a hole vertex; the triangle-regrouping fallback of split_through_holes. '
              'Trusted: Coq kernel, py2coq, CellSpec.v as the specification, harness.',
         technique=T_Q),
+    'C19': dict(
+        text='Partial. Proved in exact arithmetic: (1) offset vertex kernel (hand model SubOffset.v, run corner by corner against '
+             'Polygon2D.offset on corners with rational unit directions and rational half angles, convex and reflex): the moved vertex '
+             'is at signed distance exactly d from both adjacent edge lines, inner side for d > 0; (2) perimeter quads (model run '
+             'against perimeter_core_by_offset): quads plus inner loop tile the outer loop, signed areas add up for every pair of '
+             'n-gons; (3) scaling about a centre (generated Polygon2D.scale): image stays in every half-plane containing centre and '
+             'point, area = ratio x original when k*k == ratio, per-piece scaling totals k*k x total; (4) sub-rectangle layout (model '
+             'with Python round-half-even, run against Face3D.sub_rects_from_rect_ratio): in every branch areas total ratio x parent, '
+             'the array lies inside the parent, columns / rows do not overlap (ratio <= 0.95). Searched: Polygon2D.offset (convex, d '
+             'up to 0.4 A/P; concave up to 0.2 x feature size; both windings): vertex count, orientation, parallel edges at distance '
+             '|d| on the stated side; LineSegment2D / Polyline2D offsets; perimeter_core_by_offset with cw / ccw holes (area '
+             'partition, quad shape, inside); sub_faces_by_ratio(_rectangle) on rect / L / gable / trapezoid / convex / holed walls in '
+             'vertical, tilted, horizontal rational planes: total area = ratio x parent, plane, normal, inside boundary, outside '
+             'holes, pairwise non-overlap (exact); sub_rects_from_rect_ratio / _dimensions incl. parameters at the edges of their ranges.',
+        note='Partial: global non-self-intersection of offsets, rectangle extraction and sub_rects_from_rect_dimensions are validated, '
+             'not proved; trigonometric oracles are outside the offset kernel theorem (it takes cos/sin of the half angle as data). '
+             'Trusted: Coq kernel, hand models + correspondence, py2coq (Polygon2D.scale), harness.',
+        technique='machine-checked Coq proofs about hand-written executable models (vm_compute correspondence) and generated definitions; exact search'),
     'C16': dict(
         text='Proved for every orthonormal plane frame: the generated plane embedding is an isometry and preserves dot products; the '
              '3D closest-point-on-segment routine applied to embedded data returns the embedded result of the 2D routine (same '
